@@ -178,7 +178,7 @@ def jobs_for(tier, seed):
     nfull = len(jobs)
     # seeded histories from the rest of the scope (<= 4 versions over <= 3 dates)
     vs = {nd: versions(nd) for nd in (1, 2, 3)}
-    for _ in range(330 if quick else 20000):
+    for _ in range(200 if quick else 20000):
         nd = rng.choice([2, 3, 3])
         k = rng.choice([2, 3, 4, 4])
         st = rng.choice(list(stamp_patterns(k)))
